@@ -215,6 +215,29 @@ func extraVariants(m1, m2 *msg) []extraV {
 	return out
 }
 
+// hashShape: a message ground (counter in the args) so that keccak256(message) has a given shape; the storage trie holds
+// the value with its leading zero bytes stripped (32, 31, 30 bytes), as a real EVM storage trie does.
+type hashShape struct {
+	name string
+	m    *msg
+	slot ecommon.Hash
+}
+
+var (
+	shapes     []hashShape
+	paddedSlot = crypto.Keccak256Hash([]byte("zero-padded 32-byte encoding of a hash with a leading zero byte"))
+)
+
+func grind(name string, ok func(h []byte) bool) hashShape {
+	for i := 0; ; i++ {
+		m := &msg{TxHash: word([]byte("src tx " + name)), CrossChainID: word([]byte("ccid " + name)), FromContract: ccmc[:], ToChainID: dstChain,
+			ToContract: bytes.Repeat([]byte{0xdd}, 20), Method: "unlock", Args: []byte(fmt.Sprintf("ground message %s #%d", name, i))}
+		if ok(word(serMsg(m))) {
+			return hashShape{name, m, slotOf(m.CrossChainID)}
+		}
+	}
+}
+
 type heightV struct {
 	name    string
 	claimed uint64
@@ -238,10 +261,24 @@ func main() {
 	plain := crypto.Keccak256Hash([]byte("some other storage variable"))
 	marker := crypto.Keccak256Hash([]byte("block marker"))
 	absent := crypto.Keccak256Hash([]byte("never written"))
+	shapes = []hashShape{
+		grind("hash-with-1-leading-zero-byte", func(h []byte) bool { return h[0] == 0 && h[1] != 0 && h[31] != 0 }),
+		grind("hash-with-2-leading-zero-bytes", func(h []byte) bool { return h[0] == 0 && h[1] == 0 && h[2] != 0 && h[31] != 0 }),
+		grind("hash-with-trailing-zero-byte", func(h []byte) bool { return h[0] != 0 && h[31] == 0 }),
+		grind("hash-with-leading-and-trailing-zero-byte", func(h []byte) bool { return h[0] == 0 && h[1] != 0 && h[31] == 0 }),
+	}
+	if h := word(serMsg(m1)); h[0] == 0 || h[31] == 0 {
+		r.HarnessError("message 1 is meant to have a hash without leading/trailing zero bytes")
+	}
+	rawSlots[paddedSlot] = true
 	var worlds []*worldState
 	for i := 0; i <= nMain+1; i++ {
 		cs := []slotVal{{s1, word(serMsg(m1))}, {s2, word(serMsg(m2))}, {plain, ecommon.LeftPadBytes([]byte{0x2a}, 32)}, {marker, ecommon.LeftPadBytes([]byte{byte(i + 1)}, 32)},
 			{tailSlot, ecommon.LeftPadBytes(word(serMsg(m1))[16:], 32)}}
+		for _, sh := range shapes {
+			cs = append(cs, slotVal{slot: sh.slot, val: word(serMsg(sh.m))})
+		}
+		cs = append(cs, slotVal{slot: paddedSlot, val: word(serMsg(shapes[0].m))})
 		for f := 0; f < 40; f++ { // filler slots: deeper storage trie
 			cs = append(cs, slotVal{crypto.Keccak256Hash([]byte{byte(f), 'f'}), word([]byte{byte(f)})})
 		}
@@ -347,17 +384,24 @@ func main() {
 		r.Require("quorum:accept", "quorum:reject", "quorum:accept:stor-node-duplicated", "quorum:accept:acct-reversed",
 			"quorum:reject:header-not-authenticated-by-tracked-validators", "quorum:reject:address-not-registered-ccmc", "quorum:reject:account-proof-invalid",
 			"quorum:reject:claimed-account-differs-from-proven", "quorum:reject:storage-proof-invalid", "quorum:reject:value-not-keccak-of-message")
+		for _, sh := range shapes {
+			r.Require("quorum:accept-shape:" + sh.name)
+		}
 		for _, c := range chains {
 			r.Require(c.name+":accept", c.name+":reject", c.name+":accept:stor-node-duplicated", c.name+":accept:acct-reversed", c.name+":accept:hex-without-0x",
 				c.name+":reject:not-confirmed", c.name+":reject:address-not-registered-ccmc", c.name+":reject:account-proof-invalid",
 				c.name+":reject:claimed-account-differs-from-proven", c.name+":reject:storage-proof-invalid", c.name+":reject:value-not-keccak-of-message",
 				c.name+":reject:storage-proof-count")
+			for _, sh := range shapes {
+				r.Require(c.name + ":accept-shape:" + sh.name)
+			}
 		}
 	}
 	r.Assume("go-ethereum v1.9.15 trie.VerifyProof / trie.Prove / rlp / Keccak-256 are correct (the reference composes them; the repo composes the same library)",
 		"ETH router: the ethash seal check is skipped (verifhook.SkipSealFlag); every other header rule and the fork choice are the real ones",
 		"'at least the configured number of confirmations' is read as: bestHeight - height + 1 >= BlocksToWait (the block itself is the first confirmation), i.e. the code's bestHeight-height < BlocksToWait-1 => reject; BlocksToWait in {3 (full product), 1 (height sweep)}",
 		"the storage slot is whatever the relayer names in the proof: neither the property nor the handlers tie the slot to the cross-chain id",
+		"hash shapes: messages are ground so that keccak256(message) has 1 / 2 leading zero bytes, a trailing zero byte, or both; the synthetic storage trie strips leading zeros as the EVM does (value of 31 / 30 bytes); the zero-padded 32-byte encoding of such a hash (never produced by an EVM) is submitted too and its verdict only recorded (class ...:zero-padded-32-byte-encoding:accepted=...), not judged",
 		"quorum router: a deposit carries its own IBFT-sealed header and there is no tracked canonical chain or confirmation count; that clause is replaced by 'header at or above the tracked validator height and sealed by the tracked validators', driven only with unambiguous headers (all four validators commit / none / outsiders / below the tracked height): the seal-count threshold belongs to C14")
 	r.Finish(map[string]any{
 		"rule":    "accept <=> canonical block at claimed height && best-height+1 >= BlocksToWait && account proof (node-set semantics) yields the claimed account of the REGISTERED CCMC under that block's state root && storage proof yields a value under its storage root && value == keccak256(extra) && extra decodes; accepted MakeTxParam == decode(extra)",
@@ -432,6 +476,14 @@ func runChain(r *ev.Run, env *hsenv.Env, c *srcChain, base polyenv.Dump, chain, 
 		}
 		want := refAccept(cv, pv.p, evx.b, hv.claimed)
 		caseName := fmt.Sprintf("wait=%d/%s/%s/%s", cv.wait, hv.name, pv.name, evx.name)
+		if pv.name == "zero-padded-32-byte-encoding" { // non-canonical encoding: the verdict is recorded, not judged
+			r.Class(fmt.Sprintf("%s:%s:accepted=%v(reference-composition=%v)", tag, pv.name, res.OK, want == ""))
+			return
+		}
+		shape := ""
+		if strings.HasPrefix(evx.name, "exact/") {
+			shape = evx.name[len("exact/"):]
+		}
 		detail := map[string]any{"router": tag, "blocks_to_wait": cv.wait, "claimed_height": hv.name, "proof_from_world": worlds[hv.world].name,
 			"proof_variant": pv.name, "message_variant": evx.name, "proof": pv.p, "extra": hex.EncodeToString(evx.b), "impl_error": fmt.Sprint(res.Err), "reference": want}
 		switch {
@@ -439,11 +491,18 @@ func runChain(r *ev.Run, env *hsenv.Env, c *srcChain, base polyenv.Dump, chain, 
 			r.Violation(tag+"/accepted-although/"+want, detail)
 			r.Class(tag + ":accept-flagged")
 		case !res.OK && want == "":
-			r.Violation(tag+"/rejected-valid-deposit/"+pv.name, detail)
+			k := tag + "/rejected-valid-deposit/" + pv.name
+			if shape != "" {
+				k += "/" + shape
+			}
+			r.Violation(k, detail)
 			r.Class(tag + ":reject-flagged")
 		case res.OK:
 			r.Class(tag + ":accept")
 			r.Class(tag + ":accept:" + pv.name)
+			if shape != "" {
+				r.Class(tag + ":accept-shape:" + shape)
+			}
 			r.Case(tag + "/accept/" + caseName)
 		default:
 			r.Class(tag + ":reject")
@@ -502,6 +561,23 @@ func runChain(r *ev.Run, env *hsenv.Env, c *srcChain, base polyenv.Dump, chain, 
 				run(chain, cv, hv, pv, extraV{"fork-message", serMsg(m3)})
 			}
 		}
+	}
+	// --- hash shapes: messages whose keccak has leading / trailing zero bytes (stored value of 31 / 30 bytes), every proof
+	// variant x every claimed height with the exact message, and the honest proof with another message
+	for _, sh := range shapes {
+		ex := extraV{name: "exact/" + sh.name, b: serMsg(sh.m)}
+		for _, hv := range hs {
+			pvs := proofVariants(worlds[hv.world], sh.slot, slots[1], slots[2], slots[3])
+			for _, pv := range pvs {
+				run(chain, cv, hv, pv, ex)
+			}
+			run(chain, cv, hv, pvs[0], evs[0])
+		}
+	}
+	// the same hash (one leading zero byte) held as a zero-padded 32-byte string: an encoding no EVM produces
+	for _, hv := range hs {
+		pv := named{"zero-padded-32-byte-encoding", worlds[hv.world].proofFor(ccmc, paddedSlot)}
+		run(chain, cv, hv, pv, extraV{name: "exact/" + shapes[0].name, b: serMsg(shapes[0].m)})
 	}
 	// --- height sweep with BlocksToWait = 1
 	cv1 := &chainView{best: best, roots: roots, wait: 1, ccmc: ccmc}
